@@ -11,7 +11,7 @@ PROPERTY = 'C13'
 RULE = ('full product: every residue string of length 1..L over {P,E,K} x pre-existing modifications on <=Pm of the '
         'residue/terminal slots x 16 internal rule sets (residue, class, multi-residue, look-behind targets; 1-3 groups of '
         '1-2 mods; two overlapping sets) x 6 N-terminal x 6 C-terminal rule forms x max_mods 0..4 x 3 modes x 2 return '
-        'types; a state = (string, pre-mods, rules); non-trivial = at least one rule matches a site')
+        'types; rule values as texts, Mod objects and mixtures; a state = (string, pre-mods, rules); non-trivial = at least one rule matches a site')
 ASSUMPTIONS = ['exact clauses only for rule sets whose targets do not overlap on a residue; overlapping sets get the weak '
                'clauses of the quantifier', 'terminal variants do not count against max_mods (pinned doctest)',
                'rule regexes are consuming patterns or the empty pattern for termini (site = first consumed residue)']
@@ -307,7 +307,37 @@ def check(case, ctx):
                         st2, fa = lib.call(p.parse, f)
                         if st2 != 'ok' or fa.sequence != seq:
                             ctx.fail('variable-residues-changed', seq, f, call=call)
+    # ---- the same rules given as Mod objects (all members, or every second member) mean the same rules
+    for variant in ('all', 'mixed'):
+        o_ir, o_ntr, o_ctr = (_objectify(p, x, variant) for x in (ir, ntr, ctr))
+        for max_mods in (1, 2):
+            a = lib.call(p.apply_variable_mods, s0, copy.deepcopy(ir), max_mods, copy.deepcopy(ntr), copy.deepcopy(ctr))
+            b = lib.call(p.apply_variable_mods, s0, o_ir, max_mods, o_ntr, o_ctr)
+            ctx.evals += 2
+            if a[0] != b[0] or (a[0] == 'ok' and sorted(a[1]) != sorted(b[1])):
+                ctx.fail('variable-mod-objects', sorted(a[1]) if a[0] == 'ok' else a[1],
+                         sorted(b[1]) if b[0] == 'ok' else b[1],
+                         call=['apply_variable_mods', s0, ir, max_mods, ntr, ctr], objects=variant)
+        o_s = [_objectify(p, x, variant) for x in (sir, sntr, sctr)]
+        a = lib.call(p.apply_static_mods, s0, copy.deepcopy(sir), copy.deepcopy(sntr), copy.deepcopy(sctr))
+        b = lib.call(p.apply_static_mods, s0, *o_s)
+        ctx.evals += 2
+        if a[0] != b[0] or (a[0] == 'ok' and a[1] != b[1]):
+            ctx.fail('static-mod-objects', a[1], b[1], call=['apply_static_mods', s0, sir, sntr, sctr], objects=variant)
     ctx.outcome = [s0, case['ir'], case['nt'], case['ct'], nforms]
+
+
+def _objectify(p, v, variant, _n=None):
+    """the rule value with its modification texts replaced by Mod objects (variant 'mixed': every second one)"""
+    n = _n if _n is not None else [0]
+    if v is None:
+        return None
+    if isinstance(v, dict):
+        return {k: _objectify(p, x, variant, n) for k, x in v.items()}
+    if isinstance(v, list):
+        return [_objectify(p, x, variant, n) for x in v]
+    n[0] += 1
+    return p.Mod(v, 1) if (variant == 'all' or n[0] % 2 == 0) else v
 
 
 def _d14(case, f):
